@@ -103,6 +103,7 @@ type c39MsgServer struct {
 	prec     string
 	channel  bool
 	global   bool
+	cap      int // 0: the server honours any limit; > 0: limits above cap are silently truncated to cap (Telegram: 100)
 
 	bound    int
 	queries  int
@@ -200,8 +201,12 @@ func (s *c39MsgServer) handle(req bin.Encoder) (bin.Encoder, error) {
 	if p > n {
 		p = n
 	}
-	e := p + l.Limit
-	if l.Limit < 0 {
+	lim := l.Limit
+	if s.cap > 0 && lim > s.cap {
+		lim = s.cap
+	}
+	e := p + lim
+	if lim < 0 {
 		e = p
 	}
 	if e > n {
@@ -306,16 +311,65 @@ type c39MsgCfg struct {
 	endpoint string // history | search | global
 	respKind string
 	prec     string
+	cap      int
 }
 
-func (g c39MsgCfg) String() string { return g.endpoint + "|" + g.respKind + "|server=" + g.prec }
+func (g c39MsgCfg) String() string {
+	s := g.endpoint + "|" + g.respKind + "|server=" + g.prec
+	if g.cap > 0 {
+		s += fmt.Sprintf("|server-cap=%d", g.cap)
+	}
+	return s
+}
+
+// c39Eff is the page size the server really uses.
+func c39Eff(limit, cap int) int {
+	if cap > 0 && limit > cap {
+		return cap
+	}
+	return limit
+}
+
+// c39Short abbreviates long id lists in witnesses.
+func c39Short(x []int64) any {
+	if len(x) <= 60 {
+		return x
+	}
+	return map[string]any{"len": len(x), "first": x[:8], "last": x[len(x)-8:]}
+}
+
+func c39ShortLog(l []c39ReqLog) any {
+	if len(l) <= 24 {
+		return l
+	}
+	return map[string]any{"len": len(l), "first": l[:8], "last": l[len(l)-8:]}
+}
+
+// c39PrefixStopAfterCappedPage: limit above the server's cap, the iteration
+// yielded a strict prefix and stopped after a page of exactly cap items.
+func c39PrefixStopAfterCappedPage(cap, limit int, log []c39ReqLog, got, want []int64) bool {
+	if cap == 0 || limit <= cap || len(got) >= len(want) || len(log) == 0 {
+		return false
+	}
+	for i := range got {
+		if got[i] != want[i] {
+			return false
+		}
+	}
+	for _, l := range log {
+		if l.Returned == cap {
+			return true
+		}
+	}
+	return false
+}
 
 // c39RunMessages runs one complete iteration and judges it.
 // start: initial offset_id given to the builder (0 = from the newest message).
 func c39RunMessages(c *mon.Ctx, cfg c39MsgCfg, hist []c39Msg, limit, start int, tag string) {
 	c.Eval(1)
 	n := len(hist)
-	srv := &c39MsgServer{hist: hist, respKind: cfg.respKind, prec: cfg.prec, channel: cfg.respKind == "channel", global: cfg.endpoint == "global"}
+	srv := &c39MsgServer{hist: hist, respKind: cfg.respKind, prec: cfg.prec, channel: cfg.respKind == "channel", global: cfg.endpoint == "global", cap: cfg.cap}
 	first := 0
 	if start != 0 {
 		saved := srv.prec
@@ -323,7 +377,9 @@ func c39RunMessages(c *mon.Ctx, cfg c39MsgCfg, hist []c39Msg, limit, start int, 
 		first = srv.position(start, 0, 0)
 		srv.prec = saved
 	}
-	srv.bound = c39Bound(n-first, limit)
+	// the messages iterator may legitimately request fewer items per page than the caller's batch size
+	// (it clamps to Telegram's cap of 100): the non-termination bound is computed for min(limit, 100)
+	srv.bound = c39Bound(n-first, c39Eff(c39Eff(limit, 100), cfg.cap))
 	var want []int64
 	for _, m := range hist[first:] {
 		if !m.Empty {
@@ -358,10 +414,17 @@ func c39RunMessages(c *mon.Ctx, cfg c39MsgCfg, hist []c39Msg, limit, start int, 
 		}
 	})
 	w := func() map[string]any {
-		return map[string]any{
+		m := map[string]any{
 			"iterator": "messages", "config": cfg.String(), "n": n, "limit": limit, "start_offset_id": start, "arm": tag,
-			"history": hist, "want": want, "got": got, "queries": srv.queries, "query_bound": srv.bound, "requests": srv.log,
+			"want": c39Short(want), "got": c39Short(got), "yielded": len(got), "expected": len(want),
+			"queries": srv.queries, "query_bound": srv.bound, "requests": c39ShortLog(srv.log),
 		}
+		if n <= 60 {
+			m["history"] = hist
+		} else {
+			m["history"] = fmt.Sprintf("%d messages, ids %d..%d descending, generated by c39History(seed stream, n)", n, hist[0].ID, hist[n-1].ID)
+		}
+		return m
 	}
 	sig := "messages|" + cfg.String() + "|"
 	if tag != "" {
@@ -391,6 +454,9 @@ func c39RunMessages(c *mon.Ctx, cfg c39MsgCfg, hist []c39Msg, limit, start int, 
 			if tag == "with-empty" && c39AllEmptyPageStop(srv, got, want) {
 				// one defect class whatever the endpoint / response kind: own short signature
 				c.Violate("with-empty|messages|stops-at-all-empty-page", w())
+			} else if c39PrefixStopAfterCappedPage(cfg.cap, limit, srv.log, got, want) {
+				// batch size above the server's cap: one defect class whatever the endpoint / kind
+				c.Violate(fmt.Sprintf("capped-server|messages|batch-size>cap=%d|stops-after-capped-page", cfg.cap), w())
 			} else {
 				c.Violate(sig+d, w())
 			}
@@ -407,6 +473,9 @@ func c39RunMessages(c *mon.Ctx, cfg c39MsgCfg, hist []c39Msg, limit, start int, 
 		rel = "multiple"
 	} else if limit > n-first {
 		rel = "single-short"
+	}
+	if limit > 100 {
+		rel += "/page>100"
 	}
 	c.Distinct(fmt.Sprintf("msg/%s/%s/pages=%d/%s", tag, cfg.String(), min(pages, 6), rel))
 	if n == 7 && limit == 3 && start == 0 {
@@ -509,6 +578,7 @@ type c39DlgServer struct {
 	list     []c39Dlg
 	respKind string // slice | full-or-slice | tail-full
 	ties     bool
+	cap      int
 
 	bound    int
 	queries  int
@@ -561,7 +631,7 @@ func (s *c39DlgServer) handle(req bin.Encoder) (bin.Encoder, error) {
 			}
 		}
 	}
-	e := min(p+max(r.Limit, 0), n)
+	e := min(p+max(c39Eff(r.Limit, s.cap), 0), n)
 	page := s.list[p:e]
 	var (
 		dl    []tg.DialogClass
@@ -601,10 +671,10 @@ func (s *c39DlgServer) handle(req bin.Encoder) (bin.Encoder, error) {
 	return resp, nil
 }
 
-func c39RunDialogs(c *mon.Ctx, respKind string, ties bool, list []c39Dlg, limit int) {
+func c39RunDialogs(c *mon.Ctx, respKind string, ties bool, list []c39Dlg, limit, cap int, tag string) {
 	c.Eval(1)
 	n := len(list)
-	srv := &c39DlgServer{list: list, respKind: respKind, ties: ties, bound: c39Bound(n, limit)}
+	srv := &c39DlgServer{list: list, respKind: respKind, ties: ties, cap: cap, bound: c39Bound(n, c39Eff(limit, cap))}
 	raw := tg.NewClient(c39Invoker(srv.handle))
 	it := dialogs.NewQueryBuilder(raw).GetDialogs().BatchSize(limit).Iter()
 	var want, got []int64
@@ -641,13 +711,24 @@ func c39RunDialogs(c *mon.Ctx, respKind string, ties bool, list []c39Dlg, limit 
 		variant = "tied-dates"
 	}
 	cfg := "getDialogs|" + respKind + "|server=" + variant
+	if cap > 0 {
+		cfg += fmt.Sprintf("|server-cap=%d", cap)
+	}
 	w := func() map[string]any {
-		return map[string]any{
-			"iterator": "dialogs", "config": cfg, "n": n, "limit": limit, "dialogs": list,
-			"want": want, "got": got, "queries": srv.queries, "query_bound": srv.bound, "requests": srv.log,
+		m := map[string]any{
+			"iterator": "dialogs", "config": cfg, "n": n, "limit": limit, "arm": tag,
+			"want": c39Short(want), "got": c39Short(got), "yielded": len(got), "expected": len(want),
+			"queries": srv.queries, "query_bound": srv.bound, "requests": c39ShortLog(srv.log),
 		}
+		if n <= 60 {
+			m["dialogs"] = list
+		}
+		return m
 	}
 	sig := "dialogs|" + cfg + "|"
+	if tag != "" {
+		sig = tag + "|" + sig
+	}
 	if srv.harness != "" {
 		c.Inconclusive("c39 fake server: " + srv.harness)
 		return
@@ -682,7 +763,10 @@ func c39RunDialogs(c *mon.Ctx, respKind string, ties bool, list []c39Dlg, limit 
 	} else if limit > n {
 		rel = "single-short"
 	}
-	c.Distinct(fmt.Sprintf("dlg/%s/pages=%d/%s", cfg, min((n+limit-1)/limit, 6), rel))
+	if limit > 100 {
+		rel += "/page>100"
+	}
+	c.Distinct(fmt.Sprintf("dlg/%s/%s/pages=%d/%s", tag, cfg, min((n+limit-1)/limit, 6), rel))
 	if n == 7 && limit == 3 {
 		c.Sample("dialogs", map[string]any{"config": cfg, "n": n, "limit": limit, "yielded": got, "queries": srv.queries, "requests": srv.log})
 	}
@@ -695,7 +779,10 @@ func runC39(c *mon.Ctx) {
 		"messages.messages-whenever-the-answer-reaches-the-end} x offset precedence variants {id, date, both}; Search builder (offset_id+add_offset) x 3 kinds; " +
 		"SearchGlobal builder (offset_rate/offset_peer/offset_id, next_rate fed back) x 2 kinds x {id, rate}; dialogs iterator through the real GetDialogs builder x " +
 		"{dialogsSlice, dialogs-when-complete, dialogs-at-end} x {unique dates, tied dates with (date,id,peer) lexicographic offsets}. Each run iterates to exhaustion; " +
-		"the yielded id sequence must equal the server's list; more than ceil(N/limit)+2 queries = non-termination. Sampled extra arms: iteration started from an " +
+		"the yielded id sequence must equal the server's list; more than ceil(N/limit)+2 queries = non-termination. Large arm (both tiers, tag large): N in {99,100,101,120,199,200,201,250,1000} x " +
+		"page size in {1 (N<=250),7,50,99,100,101,120,128,250,1000,N-1,N,N+1} x 7 message configurations (all 4 response kinds) + 4 dialog configurations, each against a server that " +
+		"honours any limit and (page size > 100) a server that truncates limits to 100 like Telegram (config suffix server-cap=100; bound uses the effective page size), plus start offsets and a " +
+		"random sample with N and page size up to 2000. Sampled extra arms: iteration started from an " +
 		"offset_id (on an id and in a gap), histories with interleaved messageEmpty (signature prefix with-empty|), thorough: N up to 300. " +
 		"distinct non-trivial = distinct (arm, configuration, number of pages capped at 6, relation of N to page size)")
 	c.Assume("fake server implements Telegram pagination as documented at core.telegram.org/api/offsets over lists with unique descending ids and dates; answers are complete " +
@@ -706,15 +793,15 @@ func runC39(c *mon.Ctx) {
 	var msgCfgs []c39MsgCfg
 	for _, k := range []string{"slice", "channel", "full-or-slice", "tail-full"} {
 		for _, p := range []string{"id", "date", "both"} {
-			msgCfgs = append(msgCfgs, c39MsgCfg{"history", k, p})
+			msgCfgs = append(msgCfgs, c39MsgCfg{endpoint: "history", respKind: k, prec: p})
 		}
 	}
 	for _, k := range []string{"slice", "channel", "full-or-slice"} {
-		msgCfgs = append(msgCfgs, c39MsgCfg{"search", k, "id"})
+		msgCfgs = append(msgCfgs, c39MsgCfg{endpoint: "search", respKind: k, prec: "id"})
 	}
 	for _, k := range []string{"slice", "full-or-slice"} {
 		for _, p := range []string{"id", "rate"} {
-			msgCfgs = append(msgCfgs, c39MsgCfg{"global", k, p})
+			msgCfgs = append(msgCfgs, c39MsgCfg{endpoint: "global", respKind: k, prec: p})
 		}
 	}
 	dlgKinds := []string{"slice", "full-or-slice", "tail-full"}
@@ -727,7 +814,7 @@ func runC39(c *mon.Ctx) {
 		for _, ties := range []bool{false, true} {
 			list := c39Dialogs(c.RandN(fmt.Sprintf("c39-dlg-%v", ties), n), n, ties)
 			for _, k := range dlgKinds {
-				c39RunDialogs(c, k, ties, list, limit)
+				c39RunDialogs(c, k, ties, list, limit, 0, "")
 			}
 		}
 	}
@@ -742,6 +829,98 @@ func runC39(c *mon.Ctx) {
 	c.Set("grid_configs_messages", len(msgCfgs))
 	c.Set("grid_configs_dialogs", 2*len(dlgKinds))
 	c.Exhaustive(true)
+
+	// large-N arm (both tiers) ------------------------------------------------
+	// Page sizes around and above Telegram's per-request maximum (100) over histories
+	// longer than that. Two server variants: one honours any limit, one silently
+	// truncates limits above 100 as Telegram does (only run for page sizes > 100,
+	// below that both variants are the same server).
+	const tgCap = 100
+	largeCfgs := []c39MsgCfg{
+		{endpoint: "history", respKind: "slice", prec: "id"},
+		{endpoint: "history", respKind: "channel", prec: "id"},
+		{endpoint: "history", respKind: "full-or-slice", prec: "id"},
+		{endpoint: "history", respKind: "tail-full", prec: "id"},
+		{endpoint: "history", respKind: "slice", prec: "date"},
+		{endpoint: "search", respKind: "channel", prec: "id"},
+		{endpoint: "global", respKind: "slice", prec: "rate"},
+	}
+	lr := c.Rand("c39-large")
+	largeRuns := 0
+	for _, n := range []int{99, 100, 101, 120, 199, 200, 201, 250, 1000} {
+		hist := c39History(c.RandN("c39-hist-large", n), n, false)
+		dlgs := c39Dialogs(c.RandN("c39-dlg-large", n), n, false)
+		dlgsTied := c39Dialogs(c.RandN("c39-dlg-large-tied", n), n, true)
+		set := map[int]bool{7: true, 50: true, 99: true, 100: true, 101: true, 120: true, 128: true, 250: true, 1000: true, n - 1: true, n: true, n + 1: true}
+		if n <= 250 {
+			set[1] = true
+		}
+		var limits []int
+		for l := range set {
+			limits = append(limits, l)
+		}
+		sort.Ints(limits)
+		for _, limit := range limits {
+			caps := []int{0}
+			if limit > tgCap {
+				caps = append(caps, tgCap)
+			}
+			for _, cp := range caps {
+				for _, cfg := range largeCfgs {
+					cfg.cap = cp
+					c39RunMessages(c, cfg, hist, limit, 0, "large")
+					largeRuns++
+				}
+				for _, k := range dlgKinds {
+					c39RunDialogs(c, k, false, dlgs, limit, cp, "large")
+					largeRuns++
+				}
+				if limit >= 50 {
+					c39RunDialogs(c, "slice", true, dlgsTied, limit, cp, "large")
+					largeRuns++
+				}
+			}
+		}
+		// a few start offsets with page sizes at and above the cap
+		for k := 0; k < 3; k++ {
+			start := hist[lr.IntN(n)].ID + lr.IntN(2)
+			for _, limit := range []int{100, 101, 120} {
+				cfg := largeCfgs[lr.IntN(4)]
+				c39RunMessages(c, cfg, hist, limit, start, "large-start-offset")
+				cfg.cap = tgCap
+				c39RunMessages(c, cfg, hist, limit, start, "large-start-offset")
+				largeRuns += 2
+			}
+		}
+	}
+	// random large sample: N up to 2000, page sizes up to 2000 (log-uniform so that small,
+	// medium and huge pages all occur)
+	logU := func(hi int) int {
+		bits := 1 + lr.IntN(11)
+		v := 1 + lr.IntN(1<<bits)
+		if v > hi {
+			v = hi
+		}
+		return v
+	}
+	for i, nr := 0, c.N(40, 1500); i < nr; i++ {
+		n := 1 + lr.IntN(2000)
+		limit := logU(2000)
+		if n/limit > 300 { // keep one run below ~300 queries
+			limit = n/300 + 1
+		}
+		cp := []int{0, tgCap}[i%2]
+		if i%3 == 2 {
+			ties := lr.IntN(2) == 0 // the data and the server variant must agree
+			c39RunDialogs(c, dlgKinds[lr.IntN(len(dlgKinds))], ties, c39Dialogs(lr, n, ties), limit, cp, "large-random")
+		} else {
+			cfg := largeCfgs[lr.IntN(len(largeCfgs))]
+			cfg.cap = cp
+			c39RunMessages(c, cfg, c39History(lr, n, false), limit, 0, "large-random")
+		}
+		largeRuns++
+	}
+	c.Set("large_arm_runs", largeRuns)
 
 	// sampled arms ----------------------------------------------------------
 	r := c.Rand("c39-extra")
